@@ -306,6 +306,20 @@ def tamper(rng, st, how):
     return st
 
 
+def cross_cases(rng, splits):
+    """one document per entry of CROSS (every run): the cross-field validators, model vs the real settings classes"""
+    out = []
+    for i, (upd, _) in enumerate(CROSS):
+        case = gen_doc(rng, i % 13, splits)                 # k < 26: never tampered by gen_doc itself
+        st = case["doc"]["settings"]
+        st["developer_mode"] = True
+        for k, v in copy.deepcopy(upd).items():
+            st[k] = dict(st.get(k) or {}, **v) if isinstance(v, dict) else v
+        case["tamper"] = "cross-field"
+        out.append(case)
+    return out
+
+
 def gen_doc(rng, k, splits, corner=False):
     kind, base, u = gen_profile(rng, k)
     st = profile_settings(base, u)
